@@ -24,9 +24,6 @@ type Case struct {
 }
 
 func check(c Case, o *vf.Obs) error {
-	if c.NbMax != 0 && c.NbMax <= c.N {
-		c.NbMax = c.N + 1
-	}
 	gs.Arm(c.NbMax, gs.DefaultStepLimit)
 	defer gs.Arm(0, 0)
 	pb := solver.ParseSliceNb(oracle.CloneCNF(c.Clauses), c.N)
@@ -204,6 +201,9 @@ func genHard(t *rapid.T) Case {
 	}
 	if gen.Chance(t, 1, 2, "low") {
 		c.NbMax = c.N + 1
+		if rapid.Bool().Draw(t, "tiny") {
+			c.NbMax = rapid.IntRange(2, 10).Draw(t, "tinyLimit")
+		}
 	}
 	c.SolveFirst = gen.Chance(t, 1, 4, "solveFirst")
 	genRounds(t, &c)
